@@ -26,7 +26,9 @@ RULE = (
     "ends by the real SoulSeekClient.stop(); in a third of these its shares cache write raises OSError -- whatever "
     "stop() raises, the transfer cache must then hold the manager's transfers; followed by a restart), restart "
     "(fresh manager + load_data on the same directory WITHOUT a write: the process can end at any point, the last "
-    "written snapshot counts), set (put a live transfer into another state / field combination, with the pending "
+    "written snapshot counts), outage (the process is killed and the next one starts while the cache cannot be read: "
+    "data directory renamed away / replaced by a regular file / shelve.open raising EACCES; it optionally adds a "
+    "transfer, the cache becomes reachable again and the session writes it, then a restart), set (put a live transfer into another state / field combination, with the pending "
     "task and speed log a running client would hold), remove (TransferManager.remove), add}; a final restart always "
     "follows. Transfers range over all 10 states x 2 directions x filesize {None,0,1,7,100,2^32+1} x progress "
     "{0,1,size-1,size/2,size} x fail/abort reasons x local path x remotely_queued x place_in_queue x start/complete "
@@ -38,7 +40,9 @@ RULE = (
     "equals the last written snapshot with INITIALIZING->QUEUED, DOWNLOADING/UPLOADING->COMPLETE iff filesize == "
     "bytes_transfered else INCOMPLETE, remotely_queued false, other states and their times unchanged; every loaded "
     "transfer is in manager.transfers once, has the manager as state listener once, an unlocked state lock and a "
-    "state object bound to itself. Every session (process) runs with its own time.monotonic origin drawn from "
+    "state object bound to itself. A session that starts with an unreadable cache must either fail to load (nothing "
+    "is touched) or, after it wrote the reachable-again cache, the cache must equal what was persisted before plus "
+    "what that session added. Every session (process) runs with its own time.monotonic origin drawn from "
     "{0, 5 s, 1 h, 40 d} (lower than the previous one = reboot / cache moved, equal = same boot, higher), and "
     "transfers carry 0, 1, 2 or 30 failed remote-queue / upload-request attempts stamped with the monotonic clock of "
     "the session that made them (Transfer.increase_queue_attempts; the stamps are persisted). At the final restart a "
@@ -71,6 +75,8 @@ ASSUMPTIONS = [
     "time.monotonic has an undefined reference point per process (Python documentation), so a later session may see "
     "any origin; time.monotonic of aioslsk.transfer.model and aioslsk.transfer.manager is the virtual loop clock plus "
     "the session's origin",
+    "start-up faults: the cache path is missing, is a regular file, or shelve.open raises PermissionError; an empty "
+    "but existing data directory is indistinguishable from a first start and is not generated",
     "shutdown faults: only the store of ANOTHER service (shares cache write) fails; a failing transfer cache write is "
     "outside the property. Client sessions are not started (no management task runs between the generated ops)",
     "state changes between writes are applied by assigning state objects and fields directly (the transition graph "
@@ -163,9 +169,11 @@ def _gen_case(seed):
     transfers = [_gen_transfer(r, pool, legacy_ok) for _ in range(n)]
     ops = []
     for _ in range(r.randint(0, MAX_OPS - 1)):
-        kind = r.choice(['write', 'write', 'write', 'restart', 'stop', 'set', 'set', 'set', 'remove', 'add'])
+        kind = r.choice(['write', 'write', 'write', 'restart', 'stop', 'set', 'set', 'set', 'remove', 'add', 'outage'])
         if kind in ('write', 'restart'):
             ops.append([kind])
+        elif kind == 'outage':
+            ops.append(['outage', r.randint(0, 2), _gen_transfer(r, pool, False) if r.random() < 0.5 else None])
         elif kind == 'stop':
             ops.append(['stop', r.choice([0, 0, 1])])
         elif kind == 'remove':
@@ -550,7 +558,7 @@ def run_case(case) -> CaseResult:
         """How the session that begins before op ``start`` ends: None = killed/plain restart (bare session),
         0/1 = by SoulSeekClient.stop() without/with a failing shares cache (decided from the op list alone)."""
         for op in raw_ops[:MAX_OPS][start:]:
-            if isinstance(op, list) and op and op[0] == 'restart':
+            if isinstance(op, list) and op and op[0] in ('restart', 'outage'):
                 return None
             if isinstance(op, list) and op and op[0] == 'stop':
                 return 1 if (len(op) >= 2 and op[1] and not isinstance(op[1], (list, dict, str))) else 0
@@ -632,8 +640,11 @@ def run_case(case) -> CaseResult:
                                 f'{where}: {ident} is lost; {_ident(partner)} has the same user+path concatenation, '
                                 f'hence the same shelve key sha256(user+path+direction)')
                 else:
+                    what = ('was persisted before a session started while the cache could not be read; after the '
+                            'cache was reachable again and that session wrote it, the record is gone'
+                            if where == 'after-unreadable-start' else 'was written but is not read back')
                     res.violate(f"C17/lost:{where}:{'legacy' if m['legacy'] else 'modern'}",
-                                f'{ident} (state {m["s"]}) was written but is not read back')
+                                f'{ident} (state {m["s"]}) {what}')
                 continue
             t = by_id[ident][0]
             want = expect_fn(m)
@@ -722,9 +733,7 @@ def run_case(case) -> CaseResult:
 
         live = []          # model records of the live list (order irrelevant)
 
-        async def restart(final, next_op=0):
-            nonlocal live
-            stats['restarts'] += 1
+        def new_boot():
             # a new process: its monotonic clock has its own origin (lower after a reboot, equal = same boot)
             clock['boot'] += 1
             new_uptime = uptimes[clock['boot'] % len(uptimes)]
@@ -732,6 +741,75 @@ def run_case(case) -> CaseResult:
                 res.label('restart:clock-lower')
             clock['highest_before'] = max(clock['highest_before'], clock['uptime'])
             clock['uptime'] = new_uptime
+
+        async def outage(how, extra):
+            """The running process ends here (killed: the last written snapshot counts). The next process starts
+            while the cache cannot be read: data directory missing (volume not mounted), path is a regular file, or
+            shelve.open fails with EACCES. Either its load_data fails (acceptable: nothing is touched; the user starts
+            again once the cache is back) or it starts -- then, after the cache is reachable again and that session
+            wrote it, nothing persisted earlier may be lost: cache == persisted before + what the session added."""
+            import aioslsk.transfer.cache as cache_module
+            new_boot()
+            offline = tmp + '.offline'
+            real_shelve = cache_module.shelve
+            if how in (0, 1):
+                os.rename(tmp, offline)
+                if how == 1:
+                    open(tmp, 'w').close()
+            else:
+                def refuse(*args, **kwargs):
+                    raise PermissionError(13, 'Permission denied', db_path)
+                fake = types.SimpleNamespace(**{k: getattr(real_shelve, k) for k in dir(real_shelve)
+                                                if not k.startswith('__')})
+                fake.open = refuse
+                cache_module.shelve = fake
+            res.label(f"outage:{('dir-missing', 'path-is-file', 'open-raises-EACCES')[how]}")
+            fsession = _Session(tmp)
+            try:
+                try:
+                    await fsession.manager.load_data()
+                    started = True
+                except Exception as exc:  # noqa: BLE001 - a loud failure to start is the acceptable outcome
+                    started = False
+                    res.label(f'outage:load-failed-{type(exc).__name__}')
+            finally:
+                # the cache is reachable again
+                cache_module.shelve = real_shelve
+                if how == 1 and os.path.isfile(tmp):
+                    os.remove(tmp)
+                if how in (0, 1):
+                    if os.path.isdir(tmp):          # created by the faulty session in the meantime: not expected
+                        shutil.rmtree(tmp, ignore_errors=True)
+                        res.label('outage:directory-recreated')
+                    os.rename(offline, tmp)
+            if not started:
+                return
+            res.label('outage:session-started')
+            want = [copy.deepcopy(m) for m in disk.values()]
+            if extra is not None and _ident(extra) not in disk and not fsession.find(_ident(extra)) and \
+                    len(want) < MAX_TRANSFERS and admit(extra):
+                t = _build(extra)
+                await lib('TransferManager.add', lambda: fsession.manager.add(t))
+                want.append(extra)
+            await lib('TransferManager.store_data', fsession.manager.store_data)
+            n_before = len(res.violations)
+            try:
+                back = TransferShelveCache(tmp).read()
+            except Exception as exc:  # noqa: BLE001
+                res.violate(f'C17/unexpected-exception:{type(exc).__name__}@TransferShelveCache.read', repr(exc))
+                raise _Stop()
+            # records the faulty session did load keep whatever it wrote; the others must be untouched
+            hit = compare_set('after-unreadable-start', back, want, _expect_raw, removed)
+            if hit or len(res.violations) > n_before:
+                raise _Stop()
+            disk.clear()
+            for m in want:
+                disk[_ident(m)] = m
+
+        async def restart(final, next_op=0):
+            nonlocal live
+            stats['restarts'] += 1
+            new_boot()
             session = _Session(tmp, None if final else session_end(next_op))
             await lib('TransferManager.load_data', session.manager.load_data)
             mgr = session.manager
@@ -930,6 +1008,13 @@ def run_case(case) -> CaseResult:
             elif kind == 'restart':
                 session = await restart(final=False, next_op=op_index + 1)
                 res.label('restart-mid-history')
+            elif kind == 'outage' and len(op) >= 2 and isinstance(op[1], int) and not isinstance(op[1], bool):
+                extra = _clean_transfer(op[2]) if len(op) >= 3 else None
+                if extra is not None:
+                    extra = _normalise(extra)
+                    extra['legacy'] = 0
+                await outage(op[1] % 3, extra)
+                session = await restart(final=False, next_op=op_index + 1)
             elif kind == 'remove' and len(op) >= 2 and isinstance(op[1], int) and not isinstance(op[1], bool):
                 if not live:
                     continue
@@ -983,7 +1068,13 @@ def run_case(case) -> CaseResult:
         if errors:
             res.violate('C17/loop-error', str(errors[:2]))
     finally:
+        import aioslsk.transfer.cache as cache_module
+        import shelve as real_shelve_module
+        cache_module.shelve = real_shelve_module
+        if os.path.isfile(tmp):
+            os.remove(tmp)
         shutil.rmtree(tmp, ignore_errors=True)
+        shutil.rmtree(tmp + '.offline', ignore_errors=True)
 
     res.nontrivial = stats['nontrivial']
     res.label('avoid-collision' if avoid else 'collisions-allowed')
